@@ -5,8 +5,8 @@
    [hide] replaces the content of a Dump (internal state read through reflect) by WILD tokens: the specification
    constrains every other result exactly.  None / OutPanic = the Go code panics. *)
 From Coq Require Import List ZArith Bool.
-From V Require Import Model.RingSeq Model.SyncRingSeq Proofs.RingPure Proofs.RingSeq
-  Proofs.SyncRingSeq Proofs.SyncRingCap Proofs.SyncRingRun.
+From V Require Import Model.RingSeq Model.SyncRingSeq Run.C10 Proofs.RingPure Proofs.RingSeq
+  Proofs.SyncRingSeq Proofs.SyncRingCap Proofs.SyncRingRun Proofs.C10Entry.
 Import ListNotations.
 Local Open Scope Z_scope.
 
@@ -71,3 +71,19 @@ Print Assumptions c10_cap_rounding.
 Theorem c10_cap_rounding_refuted : forall c, 2 ^ 31 < c < 2 ^ 32 -> init_cap c = Some (Some 0).
 Proof. exact cap_rounding_refuted. Qed.
 Print Assumptions c10_cap_rounding_refuted.
+
+(* ---------------------------------------------------------------- the tie to what the check executes *)
+(* Run.C10.entry 0 = model output, entry 1 = specification output on the same integer case; out_match is the
+   harness's comparison (a WILD token of the specification matches anything).  Ring: every case. *)
+Theorem c10_entry_ring_spec_matches_model : forall c inj toks,
+  out_match (entry 1 (0 :: c :: inj :: toks)) (entry 0 (0 :: c :: inj :: toks)) = true.
+Proof. exact entry_ring_spec_matches_model. Qed.
+Print Assumptions c10_entry_ring_spec_matches_model.
+
+(* SyncRing (kind 1: fresh / injected counters; kind 2: honest pairs, closed form in the model): every case with
+   1 <= c <= 2^31 whose operations contain no re-Init *)
+Theorem c10_entry_sync_spec_matches_model : forall k c inj toks ops, k = 1 \/ k = 2 ->
+  1 <= c <= 2 ^ 31 -> dec_ops dec_sop toks [] = Some ops -> forallb (fun o => negb (is_init o)) ops = true ->
+  out_match (entry 1 (k :: c :: inj :: toks)) (entry 0 (k :: c :: inj :: toks)) = true.
+Proof. exact entry_sync_spec_matches_model. Qed.
+Print Assumptions c10_entry_sync_spec_matches_model.
